@@ -3,6 +3,7 @@
 #include "algorithms/openmp/tbfopenmpalgorithm.hpp"
 #include "algorithms/openmp/tbfopenmpalgorithmtsm.hpp"
 #include "algorithms/periodic/tbfalgorithmperiodictoptree.hpp"
+#include "algorithms/periodic/tbfalgorithmperiodictoptreetsm.hpp"
 
 namespace tbfsim {
 
@@ -22,6 +23,7 @@ struct CfgWeightPeriodic : CfgCommon {
     using Mult = std::array<unsigned long, 2>;
     using Loc = std::array<unsigned long, 2>;
     template <class PK> using TopAlgo = TbfAlgorithmPeriodicTopTree<Real, PK, Mult, Loc, Space>;
+    template <class PK> using TopAlgoTsm = TbfAlgorithmPeriodicTopTreeTsm<Real, PK, Mult, Loc, Space>;
 };
 
 #define REG(key, Cfg, Ex) static WorldRegistrar reg_##Cfg##_##Ex(key, [](const Scenario& s) { return std::unique_ptr<IWorld>(new World<Cfg, Ex>(s)); })
